@@ -56,19 +56,21 @@ def _emit_contract(cond_emit):
     emit a frame holding exactly the buffered rows, in order, and leave the buffer empty - or do nothing"""
     class C:
         result = OPT(MSG("RdfStreamFrame"))
+        linear = True        # a frame taken out of the flow must be handed on by whoever obtained it
         modifies = ["self.data"]
 
-        def ensures(e):
+        def lists(e):
+            # the frame holds exactly the buffered rows, in order, and the buffer is empty afterwards - or nothing changed
             old_items = list(e.old.self.data.items)
+            emitted = Not(is_none(e.result))
+            return [dict(label="emitted", when=emitted, set={"self.data": [], "result.rows": old_items}),
+                    dict(label="nothing-emitted", when=Not(emitted), set={"self.data": old_items})]
+
+        def ensures(e):
             old_n = flow_len(e.old.self)
             emitted = Not(is_none(e.result))
-            fr = opt_val(e.result)
-            out = {"emits-iff": Iff(emitted, cond_emit(e, old_n))}
-            if fr is not None:
-                out["frame-holds-exactly-the-buffered-rows"] = Implies(emitted, same_rows(list(fr.rows.items), old_items))
-                out["buffer-empty-after-emitting"] = Implies(emitted, flow_len(e.self) == 0)
-            out["untouched-when-nothing-emitted"] = Implies(Not(emitted), same_rows(list(e.self.data.items), old_items))
-            return out
+            return {"emits-iff": Iff(emitted, cond_emit(e, old_n)),
+                    "buffer-empty-after-emitting": Implies(emitted, flow_len(e.self) == 0)}
     return C
 
 
@@ -79,6 +81,6 @@ def _reg(key: str, cls_key: str, cond, serves: list[str]) -> None:
 
 
 _reg(f"{FL}:FrameFlow.to_stream_frame", f"{FL}:FrameFlow", lambda e, n: n > 0, ["C06", "C01", "C07", "C11"])
-_reg(f"{FL}:BoundedFrameFlow.frame_from_bounds", f"{FL}:BoundedFrameFlow", lambda e, n: n >= e.old.self.frame_size, ["C11", "C06", "C01"])
+_reg(f"{FL}:BoundedFrameFlow.frame_from_bounds", f"{FL}:BoundedFrameFlow", lambda e, n: And(n >= e.old.self.frame_size, n > 0), ["C11", "C06", "C01"])
 _reg(f"{FL}:GraphsFrameFlow.frame_from_graph", f"{FL}:GraphsFrameFlow", lambda e, n: n > 0, ["C07", "C06"])
 _reg(f"{FL}:DatasetsFrameFlow.frame_from_dataset", f"{FL}:DatasetsFrameFlow", lambda e, n: n > 0, ["C07", "C06"])
